@@ -148,7 +148,7 @@ def HdrM.matches (h : HdrM) (md : MD) : Bool :=
     -- NewHeaderPresentMatcher folds invert into `present`
     let want := if h.invert then !b else b
     let present := match valueFromMD md h.name with
-      | some v => !v.isEmpty
+      | some _ => true          -- after fix 8ad6d37 an empty-valued header is present
       | none => false
     present == want
   | .range lo hi =>
